@@ -936,6 +936,8 @@ class MarkdownNormalizer(Renderer):
         lines.append(f"{self._second_prefix}| {' | '.join(normalized_delimiters)} |\n")
         for row in body:
             lines.append(self._second_prefix + self.render(row))
+        # As after a code block or a quote: the next item of a loose list is separated.
+        self._suppress_item_break = False
         return "".join(lines)
 
     def render_table_row(self, element: gfm_elements.TableRow) -> str:
